@@ -51,7 +51,9 @@ def check_fresh_output(ctx: Ctx, ic):
         raise AnchorError(IC + ".compile_symbol", "not found")
     found = 0
     for r in q.returns(fi):
-        facts = [(norm(e), pol) for e, pol in guard_facts(fi, r)]
+        from ..core import canon_fact
+
+        facts = [canon_fact(e, pol) for e, pol in guard_facts(fi, r)]
         is_ret = any("_ret" in f and pol for f, pol in facts)
         is_input = any("self.input_symbols" in f and pol for f, pol in facts)
         if not (is_ret and is_input):
@@ -74,29 +76,81 @@ def check_fresh_output(ctx: Ctx, ic):
 def check_dest_rebound(ctx: Ctx, ic):
     """TS-DEST (provenance): in every synthesis routine the destination is the qubit the caller handed in, or a fresh
     (zero) ancilla allocated by the routine.  Re-binding `dest` to a qubit found elsewhere (one that already carries a
-    value and may be a control of earlier gates) makes the routine accumulate onto a live qubit."""
+    value and may be a control of earlier gates) makes the routine accumulate onto a live qubit.  A helper that
+    computes the destination is followed into its return statements (new helpers are usually inlined before)."""
+    from ..normalize import frozen_functions
+
     fresh = ("qc.get_free_ancilla", "qc.add_qubit", "qc.add_ancilla")
+    known = frozen_functions()
+
+    def verdict(fi, v, dname, k=None, depth=0):
+        """'ok' | 'bad' | 'unknown' for the value v (component k of it when it is a tuple) as a destination"""
+        if v is None:
+            return "unknown"
+        if isinstance(v, ast.IfExp):
+            vs = {verdict(fi, v.body, dname, k, depth), verdict(fi, v.orelse, dname, k, depth)}
+            return "bad" if "bad" in vs else ("unknown" if "unknown" in vs else "ok")
+        if k is not None and isinstance(v, (ast.Tuple, ast.List)):
+            return verdict(fi, v.elts[k], dname, None, depth) if k < len(v.elts) else "unknown"
+        if isinstance(v, ast.Name):
+            return "ok" if v.id == dname else "unknown"
+        if isinstance(v, ast.Call):
+            d = dotted(v.func) or ""
+            if d in fresh:
+                return "ok"
+            if d == "self.compile_expr" and any(kw.arg == "dest" and norm(kw.value) == dname for kw in v.keywords):
+                return "ok"
+            if d.startswith("self.") and d.count(".") == 1 and depth < 3:
+                callee = ic.methods.get(d.split(".")[1])
+                if callee is not None:
+                    ps = callee.params[1:]
+                    passed = None
+                    for i_, a_ in enumerate(v.args):
+                        if isinstance(a_, ast.Name) and a_.id == dname and i_ < len(ps):
+                            passed = ps[i_]
+                    for kw in v.keywords:
+                        if isinstance(kw.value, ast.Name) and kw.value.id == dname:
+                            passed = kw.arg
+                    rs = [verdict(callee, r.value, passed or "\0", k, depth + 1) for r in q.returns(callee)]
+                    if not rs:
+                        return "unknown"
+                    return "bad" if "bad" in rs else ("unknown" if "unknown" in rs else "ok")
+            return "unknown"
+        if isinstance(v, ast.Subscript) and isinstance(v.value, ast.Name) and v.value.id == "qc":
+            return "bad"  # the qubit of a named symbol: it holds that symbol's value
+        return "unknown"
+
     n = 0
     for name, fi in sorted(ic.methods.items()):
-        if "dest" not in fi.params:
+        if "dest" not in fi.params or (known and fi.qualname not in known):
             continue
         n += 1
-        bad = None
+        bad = und = None
         for a in walk_no_nested(fi.node):
-            tg = []
-            if isinstance(a, ast.Assign):
-                for t in a.targets:
-                    tg += [x for x in ast.walk(t) if isinstance(x, ast.Name) and isinstance(x.ctx, ast.Store)]
-            elif isinstance(a, (ast.AugAssign, ast.AnnAssign)) and isinstance(a.target, ast.Name):
-                tg = [a.target]
-            if not any(t.id == "dest" for t in tg):
+            k = None
+            if isinstance(a, ast.Assign) and len(a.targets) == 1:
+                t = a.targets[0]
+                if isinstance(t, ast.Name) and t.id == "dest":
+                    pass
+                elif isinstance(t, (ast.Tuple, ast.List)) and any(isinstance(x, ast.Name) and x.id == "dest" for x in t.elts):
+                    k = [i_ for i_, x in enumerate(t.elts) if isinstance(x, ast.Name) and x.id == "dest"][0]
+                else:
+                    continue
+            elif isinstance(a, (ast.AugAssign, ast.AnnAssign)) and isinstance(a.target, ast.Name) and a.target.id == "dest":
+                if isinstance(a, ast.AugAssign):
+                    bad = a
+                    break
+            else:
                 continue
-            v = getattr(a, "value", None)
-            alts = [v.body, v.orelse] if isinstance(v, ast.IfExp) else [v]
-            ok = isinstance(a, ast.Assign) and len(tg) == 1 and all((isinstance(x, ast.Name) and x.id == "dest") or (isinstance(x, ast.Call) and dotted(x.func) in fresh) or (isinstance(x, ast.Call) and dotted(x.func) == "self.compile_expr" and any(k.arg == "dest" and norm(k.value) == "dest" for k in x.keywords)) for x in alts)
-            if not ok:
+            vd = verdict(fi, getattr(a, "value", None), "dest", k)
+            if vd == "bad":
                 bad = a
                 break
+            if vd == "unknown":
+                und = a
+        if bad is None and und is not None:
+            ctx.undecided(fi.short, f"TS-DEST [the destination is the caller's qubit or a fresh ancilla]: `{norm(und)[:70]}` re-binds the destination to a value the tables cannot trace ({fi.loc(und)})")
+            continue
         ctx.check(bad is None, "TS-DEST", fi, "the destination is the caller's qubit or a fresh ancilla", "dest is never re-bound to an existing qubit", f"`{norm(bad)[:80] if bad is not None else ''}` re-binds the destination to a qubit that is neither the caller's nor freshly allocated: the result is accumulated onto a qubit that already holds a value and that earlier gates use as a control (for an output qubit: not |y> -> |y xor f(x)>, and the final replay runs those gates against the result)", bad)
     if n < 4:
         raise AnchorError(IC, f"only {n} synthesis routines with a dest parameter")
